@@ -17,6 +17,7 @@ global size_of usize == 8;
 //@@ include prelude/codec_types.rs
 //@@ include prelude/core_types.rs
 //@@ include prelude/socket_standins.rs
+//@@ include prelude/recv_specs.rs
 
 //@ item src/lib.rs :: enum SocketType
 //@ end
@@ -145,16 +146,6 @@ spec fn rr_sent_to(b0: GenericSocketBackend, b1: GenericSocketBackend, r: ZmqRes
 // =================================================================================
 //@ item src/router.rs :: struct RouterSocket
 //@ end
-/// a queue item the receivers ignore by design: a greeting or a command
-pub open spec fn skipped_item(it: Option<(PeerIdentity, CodecResult<Message>)>) -> bool {
-    it is Some && it->Some_0.1 is Ok && !(it->Some_0.1->Ok_0 is Message)
-}
-pub open spec fn failed_item(it: Option<(PeerIdentity, CodecResult<Message>)>) -> bool {
-    it is Some && it->Some_0.1 is Err
-}
-pub open spec fn message_item(it: Option<(PeerIdentity, CodecResult<Message>)>) -> bool {
-    it is Some && it->Some_0.1 is Ok && it->Some_0.1->Ok_0 is Message
-}
 /// the peer table `t1` is `t0` minus exactly the peers whose connection failed among log[from..to)
 pub open spec fn forgot_failed(t0: Map<PeerIdentity, Peer>, t1: Map<PeerIdentity, Peer>, log: Seq<Option<(PeerIdentity, CodecResult<Message>)>>, from: int, to: int) -> bool {
     &&& forall|q: PeerIdentity| #[trigger] t1.contains_key(q) ==> t0.contains_key(q) && t1[q] == t0[q]
@@ -385,17 +376,6 @@ spec fn rr_socket_sent(b0: GenericSocketBackend, b1: GenericSocketBackend, r: Zm
             &&& r is Err ==> b1.peers@ =~= b0.peers@.remove(p)
         }
 }
-/// DEALER / PULL recv: skip non-message items, return the first message unmodified, or fail on a failed
-/// connection / an exhausted queue
-pub open spec fn plain_received(l0: Seq<Option<(PeerIdentity, CodecResult<Message>)>>, l1: Seq<Option<(PeerIdentity, CodecResult<Message>)>>, r: ZmqResult<ZmqMessage>) -> bool {
-    let last = l1.last();
-    &&& l1.len() > l0.len() && l1.subrange(0, l0.len() as int) =~= l0
-    &&& forall|i: int| l0.len() <= i < l1.len() - 1 ==> skipped_item(#[trigger] l1[i])
-    &&& !skipped_item(last)
-    &&& r is Ok <==> message_item(last)
-    &&& r is Ok ==> r->Ok_0 == last->Some_0.1->Ok_0->Message_0
-}
-
 // ---- C10 corollary: strict rotation ----
 /// the rotation after one successful send when the first identity is live: it moves to the back
 pub open spec fn rotate(q: Seq<PeerIdentity>) -> Seq<PeerIdentity> { q.subrange(1, q.len() as int).push(q[0]) }
